@@ -309,6 +309,9 @@ func (p *prop) tagsAndOracle(k *kase, impl string, o *obs, out *core.Outcome) {
 					o.matchedIP, o.celClient, o.remoteHit, o.celRemote, o.clientIP, k.remote))
 			}
 		}
+		if o.tmplIP != o.clientIP {
+			fail("client-ip-template-differs", fmt.Sprintf("{{.ClientIP}} = %q, client_ip = %q", o.tmplIP, o.clientIP))
+		}
 		if o.placeh != o.clientIP {
 			fail("client-ip-placeholder-differs", fmt.Sprintf("{http.vars.client_ip} = %q, client_ip = %q", o.placeh, o.clientIP))
 		}
